@@ -13,6 +13,7 @@ import (
 	"github.com/ipni/go-libipni/announce/message"
 	"github.com/ipni/go-libipni/announce/p2psender"
 	"github.com/ipni/go-libipni/mautil"
+	"github.com/ipni/go-libipni/verifhook"
 	pubsub "github.com/libp2p/go-libp2p-pubsub"
 	"github.com/libp2p/go-libp2p/core/host"
 	"github.com/libp2p/go-libp2p/core/peer"
@@ -190,6 +191,7 @@ func (r *Receiver) Close() error {
 	}
 
 	r.announceMutex.Unlock()
+	verifhook.Point("recv.closing", nil)
 
 	// Tell Next to stop waiting.
 	close(r.done)
